@@ -137,16 +137,35 @@ def forbidden_scan(files=None):
     return bad
 
 
-def coq_tree_hash():
+def coq_tree_hash(files=None):
     h = hashlib.sha256()
-    for f in coq_sources():
+    for f in files or coq_sources():
         h.update(f.encode())
         h.update(open(f, "rb").read())
     return h.hexdigest()[:16]
 
 
-def coq_build(timeout=3000):
-    """Full .vo build of coq/ (coq_makefile + make -j). No-op when up to date. Returns (ok, log)."""
+def coq_closure(rel_files):
+    """Transitive closure of coq/ files (relative paths) under `Require ... Acme.X.Y`."""
+    seen, todo = [], list(rel_files)
+    while todo:
+        f = todo.pop()
+        if f in seen or not os.path.exists(os.path.join(COQ, f)):
+            continue
+        seen.append(f)
+        txt = strip_coq_comments(open(os.path.join(COQ, f), encoding="utf-8").read())
+        for m in re.finditer(r"(?:From\s+(Acme[\w.]*)\s+)?Require\s+(?:Import\s+|Export\s+)?([^.]*(?:\.[\w]+)*[^.]*)\.(?=\s)", txt):
+            pre = m.group(1)
+            for name in m.group(2).split():
+                full = (pre + "." + name) if pre else name
+                if full.startswith("Acme."):
+                    todo.append(full[len("Acme."):].replace(".", "/") + ".v")
+    return sorted(seen)
+
+
+def coq_build(timeout=3000, targets=None):
+    """.vo build of coq/ (coq_makefile + make -j): everything, or only `targets` (relative .v
+    paths) with their dependencies. No-op when up to date. Never -vos. Returns (ok, log)."""
     with Lock("coq"):
         srcs = [os.path.relpath(f, COQ) for f in coq_sources()]
         os.makedirs(os.path.join(COQ, "extracted"), exist_ok=True)
@@ -156,7 +175,11 @@ def coq_build(timeout=3000):
         if old != proj or not os.path.exists(os.path.join(COQ, "Makefile")):
             open(pj, "w").write(proj)
             sh("coq_makefile -f _CoqProject -o Makefile", cwd=COQ, check=True)
-        rc, out = sh("make -j%d" % NCPU, cwd=COQ, timeout=timeout)
+        if targets:
+            tg = " ".join(t[:-2] + ".vo" for t in targets)
+            rc, out = sh("make -j%d %s" % (NCPU, tg), cwd=COQ, timeout=timeout)
+        else:
+            rc, out = sh("make -k -j%d" % NCPU, cwd=COQ, timeout=timeout)
         return rc == 0, out
 
 
@@ -195,14 +218,17 @@ def coq_property(pid, timeout=900):
     return res
 
 
-def proof_status(pid):
-    """Build + gate + property file. Returns dict with obligations/discharged/axioms/problems."""
+def proof_status(pid, extra_targets=()):
+    """Build (the property file's closure + extra targets such as Cxx/Extract.v) + gate +
+    property file. Returns dict with obligations/discharged/axioms/problems."""
     t0 = time.time()
     problems = []
-    ok, log = coq_build()
+    targets = ["Properties/%s.v" % pid] + list(extra_targets)
+    ok, log = coq_build(targets=targets)
     if not ok:
         problems.append("coq build failed: " + log[-1500:])
-    bad = forbidden_scan()
+    closure = coq_closure(targets)
+    bad = forbidden_scan([os.path.join(COQ, f) for f in closure])
     for b in bad:
         problems.append("forbidden construct %s:%d: %s" % b)
     pr = coq_property(pid) if ok else {"ok": False, "theorems": [], "assumptions": {}, "log": ""}
@@ -225,12 +251,14 @@ def proof_status(pid):
                 problems.append("theorem %s depends on non-stdlib axioms %s" % (th, ax))
     return {"obligations": obligations, "discharged": discharged, "theorems": pr["theorems"],
             "undischarged": undischarged, "axioms": sorted(axioms), "problems": problems,
-            "wall_s": time.time() - t0, "coq_hash": coq_tree_hash()}
+            "closure": closure,
+            "wall_s": time.time() - t0,
+            "coq_hash": coq_tree_hash([os.path.join(COQ, f) for f in closure])}
 
 
 def coqchk(pid, timeout=3000):
     """Thorough tier: independent re-check of the property's library closure (cached by tree hash)."""
-    h = coq_tree_hash()
+    h = coq_tree_hash([os.path.join(COQ, f) for f in coq_closure(["Properties/%s.v" % pid])])
     stamp = os.path.join(BUILD, "coqchk-%s-%s.log" % (pid, h))
     if os.path.exists(stamp):
         return True, open(stamp).read()
@@ -301,12 +329,17 @@ def overlay_json(scratch, mapping):
 # --------------------------------------------------------------------------------------
 
 def known_findings(pid):
-    p = os.path.join(VERIF, "known_findings.json")
-    if not os.path.exists(p):
-        return [], []
-    d = json.load(open(p))
-    open_ = [f for f in d.get("findings", []) if f["property"] == pid and f.get("status", "open") == "open"]
-    fixed = [f for f in d.get("findings", []) if f["property"] == pid and f.get("status") == "fixed"]
+    """known_findings.json is assembled from props/*/known_findings.json by meta/manifest_src.py;
+    both are read so that a stale root file cannot hide an entry."""
+    import glob
+    allf = []
+    for p in [os.path.join(VERIF, "known_findings.json")] + sorted(glob.glob(os.path.join(VERIF, "props", "*", "known_findings.json"))):
+        if os.path.exists(p):
+            for f in json.load(open(p)).get("findings", []):
+                if f not in allf:
+                    allf.append(f)
+    open_ = [f for f in allf if f["property"] == pid and f.get("status", "open") == "open"]
+    fixed = [f for f in allf if f["property"] == pid and f.get("status") == "fixed"]
     return open_, fixed
 
 
@@ -357,6 +390,7 @@ class Ctx:
         self.coverage.update({
             "obligations": status["obligations"], "discharged": status["discharged"],
             "theorems": status["theorems"], "axioms_reported": status["axioms"],
+            "coq_files": status.get("closure", []),
             "coq_tree_hash": status["coq_hash"],
             "checker_cmd": "make -C coq (coq_makefile, full .vo build) && coqc -R coq Acme coq/Properties/%s.v (Print Assumptions parsed)" % self.pid,
         })
